@@ -76,6 +76,17 @@ void parse(Tmpl& t) {
          if (s.kind == 'r') { long v = slot_int(s); vs_assume(v >= s.lo && v <= s.hi); }
          if (s.kind == 'z') { long v = slot_int(s); vs_assume(v < s.lo || v >= s.hi); }
       }
+   // pattern checks (cfg 16): "patw+" / "patk+" = slot 0 is assumed to match the pattern of -w / -k (reference predicate below) and
+   // the line must be accepted, "patw-" / "patk-" = assumed not to match, must be refused
+   if (t.expect.compare(0, 3, "pat") == 0) {
+      const Slot& s = t.slots[0]; bool member;
+      if (t.expect[3] == 'w') {          // ^[a-c]+[0-9]$
+         member = s.len >= 2 && s.b[s.len - 1] >= '0' && s.b[s.len - 1] <= '9';
+         for (int i = 0; i + 1 < s.len; ++i) member = member && s.b[i] >= 'a' && s.b[i] <= 'c';
+      } else                             // x.?y
+         member = (s.len == 2 && s.b[0] == 'x' && s.b[1] == 'y') || (s.len == 3 && s.b[0] == 'x' && s.b[2] == 'y');
+      if (t.expect[4] == '+') { vs_assume(member); t.expect = "ok"; } else { vs_assume(!member); t.expect = "throw"; }
+   }
    for (size_t i = 2; i < lines.size(); ++i) {
       if (i + 1 == lines.size() && lines[i].empty()) break;
       std::string w;
@@ -196,6 +207,10 @@ void setup(Handler& ah, Dest& d, int cfg, int part /* 0 = all, 1/2 = halves for 
       // floating point destinations
       ah.addArgument("d,double", DEST_VAR(d.dbl), "double"); ah.addArgument("x,float", DEST_VAR(d.flt), "float"); ah.addArgument("f,flag", DEST_VAR(d.f), "flag"); ah.addArgument("n,number", DEST_VAR(d.n), "number");
       ah.addArgument("r,ratio", DEST_VAR(d.ratio), "checked double")->addCheck(range(0.5, 2.5)); ah.addArgument("q,quota", DEST_VAR(d.quota), "checked double")->addCheck(lower(1.5))->addCheck(upper(7.5));
+   } else if (cfg == 16) {
+      // pattern check (std::regex, header code of libstdc++ in the IR)
+      ah.addArgument("w,word", DEST_VAR(d.w), "word")->addCheck(pattern("^[a-c]+[0-9]$")); ah.addArgument("k,key", DEST_VAR(d.k), "key")->addCheck(pattern("x.?y"));
+      ah.addArgument("f,flag", DEST_VAR(d.f), "flag");
    } else if (cfg == 12) {
       // value constraints over three arguments
       if (in(1)) { ah.addArgument("x", DEST_VAR(d.n), "x"); ah.addArgument("y", DEST_VAR(d.m), "y"); ah.addArgument("z", DEST_VAR(d.l), "z"); ah.addConstraint(differ("x;y;z")); }
@@ -230,6 +245,7 @@ void setup(Handler& ah, Dest& d, int cfg, int part /* 0 = all, 1/2 = halves for 
       ah.addArgument("a,arr", DEST_VAR(d.arr), "array");
       ah.addArgument("y,stdarr", DEST_VAR(d.sa), "std::array");
       ah.addArgument("b,bits", DEST_VAR(d.bs), "bitset");
+      d.vb.resize((pa_opt >> 7) & 3);          // a destination that already has 0..3 (cleared) positions
       ah.addArgument("z,vbool", DEST_VAR(d.vb), "vector<bool>");
       ah.addArgument("f,flag", DEST_VAR(d.f), "flag");
       if (pa_opt & 64) ah.addArgument("-", DEST_VAR(d.fv), "free values");
